@@ -1106,7 +1106,7 @@ func checkC32(r *mon.Run) {
 	upd := updateDefects()
 	unj := unjudgedVariants()
 	based := baseDefects()
-	nScen := r.Pick(110, 3000)
+	nScen := r.Pick(90, 1500)
 	workers := 14
 	var wg sync.WaitGroup
 	for wk := 0; wk < workers; wk++ {
@@ -1125,9 +1125,9 @@ func checkC32(r *mon.Run) {
 					pred.p.Quorum = 2
 				}
 				// clean updates
-				for i := 0; i < 6; i++ {
+				for i := 0; i < 12; i++ {
 					kind := []string{"regular", "sensitive"}[i%2]
-					if u := buildClean(e, rng, pred, kind, need{exactQuorum: i < 2, noChange: kind == "regular" && i == 4}); u != nil {
+					if u := buildClean(e, rng, pred, kind, need{exactQuorum: i < 4, noChange: kind == "regular" && i == 4}); u != nil {
 						u.run(r)
 					} else {
 						r.Inconclusive("clean-plan-not-constructible")
@@ -1135,6 +1135,9 @@ func checkC32(r *mon.Run) {
 				}
 				// one plan per defect
 				for _, d := range upd {
+					if strings.HasPrefix(d.name, "invalid-payload/") && rng.IntN(5) >= 2 {
+						continue // payload rules are C33's subject; sample 40% of them per scenario
+					}
 					for _, kind := range d.kinds {
 						u := buildClean(e, rng, pred, kind, d.need)
 						if u == nil || !d.apply(e, rng, u) {
@@ -1162,10 +1165,13 @@ func checkC32(r *mon.Run) {
 					}
 				}
 				// base TRCs
-				for i := 0; i < 3; i++ {
+				for i := 0; i < 5; i++ {
 					buildBase(e, rng, w).run(r)
 				}
 				for _, d := range based {
+					if strings.HasPrefix(d.name, "invalid-payload/") && rng.IntN(5) >= 2 {
+						continue
+					}
 					u := buildBase(e, rng, w)
 					if !d.apply(e, rng, u) {
 						r.Inconclusive("defect-not-applicable")
@@ -1298,4 +1304,3 @@ func replayC32(r *mon.Run) {
 	fmt.Println("replay result:", res)
 	r.Sample(map[string]any{"replay": r.ReplayFile(), "result": res})
 }
-
